@@ -20,6 +20,7 @@ RULE = ('the instruction table of C04 (integer core) plus MMX/SSE register and m
         'was witnessed on the CPU.')
 RULE += ' Round 6: the 16-bit-addressed and address-size-prefixed instances of C04; x87: 159 forms (register-register both directions, popping, memory and integer operands, pushes, constants, compares, fcomi, fcmovcc, stack rotation) executed with the x87 stack loaded with finite values (perturbing ST(i) one at a time; written = the CPU changed a register that is tagged valid afterwards; C0..C3 are outputs of the compare family only).'
 RULE += ' Round 7: 16-bit code-segment twins: the register-only rows decoded for that configuration must report the read and write sets of their 32-bit decoding.'
+RULE += ' Round 8: the segment pushes and repeated-prefix rows of C04; the 16-bit code-segment twins include memory-operand rows and compare the reported memory cells (addresses evaluated on a state whose upper register halves are set).'
 ASSUMPTIONS = ['the host CPU under ptrace single-step is the reference; faulting steps are excluded', 'only architecturally defined outputs witness a read dependency (undefined flags are ignored as outputs); '
                'every flag the CPU changes counts as written', 'x87 registers hold finite normal values with all exceptions masked (the default control word); TOP is 0 initially; a register tagged empty after the step is not an output']
 
